@@ -61,32 +61,16 @@ impl BerEncoder for SnmpInt {
             }
             Ordering::Less => {
                 let start = buf.len();
-                let mut left = -self.0;
-                // Calculate used octets
-                let mut ln = 0;
-                while left > 0 {
-                    ln += 1;
+                // Write the two's complement octets, lowest first.
+                // Arithmetic shift keeps the sign, so the rest turns
+                // to -1 when only the sign extension is left.
+                let mut left = self.0;
+                loop {
+                    let octet = (left & 0xff) as u8;
+                    buf.push_u8(octet)?;
                     left >>= 8;
-                }
-                // Calculate complement
-                let d = 1 << (ln * 8 - 1);
-                left = -self.0;
-                let comp = if d < left { d << 8 } else { d };
-                // Write octets
-                if comp == left {
-                    for _ in 0..ln - 1 {
-                        buf.push_u8(0)?;
-                    }
-                    buf.push_u8(0x80)?;
-                } else {
-                    left = comp - left;
-                    loop {
-                        if left < 0xff {
-                            buf.push_u8(0x80 | (left as u8))?;
-                            break;
-                        }
-                        buf.push_u8((left & 0xff) as u8)?;
-                        left >>= 8;
+                    if left == -1 && octet & 0x80 == 0x80 {
+                        break;
                     }
                 }
                 // Write tag and length
